@@ -20,7 +20,7 @@ RULE = ("kind 0: generated programs (raise site x surrounding statements from a 
         "full x ignore pattern x working/home directory; kind 1: the highlighter on real Python files of the repository and the standard "
         "library; kind 2: compact on frame sequences. non-trivial = distinct (site, origin, recursion, verbosity, message class) / file / "
         "sequence")
-THEOREMS = ["line_numbers_consecutive", "marks_exactly_the_failing_line", "snippet_is_a_window", "snippet_contains_failing_line", "row_shown", "one_line_per_row", "compact_keeps_frames", "listed_frames_are_kept", "ignored_frames_are_invisible", "debug_keeps_every_frame", "stack_trace_lists_frames", "full_report_shape", "simple_report_shape", "text_is_shown_as_it_is", "named_text_is_shown_as_it_is", "line_shows_its_texts", "decorated_line_shows_the_same_text", "line_never_makes_the_formatter_fail", "highlighted_line_shows_the_source", "every_written_line_is_literals_and_separators", "indentation_keeps_a_line_good", "writing_a_good_line_never_fails", "report_lines_exist_iff_tokenize_succeeded", "render_fails_only_if_tokenize_does", "plain_report_bytes", "simple_report_says_the_message", "full_report_says_name_and_message"]
+THEOREMS = ["line_numbers_consecutive", "marks_exactly_the_failing_line", "snippet_is_a_window", "snippet_contains_failing_line", "row_shown", "one_line_per_row", "compact_keeps_frames", "listed_frames_are_kept", "ignored_frames_are_invisible", "debug_keeps_every_frame", "stack_trace_lists_frames", "full_report_shape", "simple_report_shape", "text_is_shown_as_it_is", "named_text_is_shown_as_it_is", "line_shows_its_texts", "decorated_line_shows_the_same_text", "line_never_makes_the_formatter_fail", "highlighted_line_shows_the_source", "every_written_line_is_literals_and_separators", "indentation_keeps_a_line_good", "writing_a_good_line_never_fails", "report_lines_always_exist", "render_never_fails_unconditionally", "render_with_solutions_never_fails_unconditionally", "unreadable_source_report", "plain_report_bytes", "simple_report_says_the_message", "full_report_says_name_and_message"]
 TRUSTED = ["tokenize, inspect and crashtest (Inspector, Frame) are outside clikit: their outputs (token streams, frames, file contents) are "
            "INPUTS of the model, taken from the same run; the hypotheses the theorems put on token streams (wf_tokens) are checked on "
            "every token stream of the run by the harness (validated, not proved); FrameCollection.compact is modelled and tied (kind 2)",
@@ -142,9 +142,10 @@ def gen(rng, tier, info):
         # the failing line right below / above each pool statement
         cases.append(_case(head=[p], verb=3, site=0))
         cases.append(_case(tail=[p], verb=0, site=0))
-    for origin in ("module", "module-exec", "latin1"):
+    for origin in ("module", "module-exec", "latin1", "changed"):
         for v in (0, 1, 3):
             cases.append(_case(origin=origin, verb=v, head=[3, 7]))
+            cases.append(_case(origin=origin, verb=v, head=[4, 15], body=[2]))      # non-ASCII text in the file
     for rec in ("self", "mutual"):
         for d in ([1, 2, 3, 5, 60] if quick else [1, 2, 3, 4, 5, 8, 13, 30, 60]):
             for v in (1, 3):
@@ -157,7 +158,7 @@ def gen(rng, tier, info):
     if tier == "search":
         n_rand = 400
     for _ in range(n_rand):
-        origin = rng.choice(["file"] * 6 + ["exec:%d" % rng.randrange(len(FNAMES)), "module", "module-exec"])
+        origin = rng.choice(["file"] * 6 + ["exec:%d" % rng.randrange(len(FNAMES)), "module", "module-exec", "latin1", "changed"])
         cases.append(_case(
             head=[rng.randrange(len(POOL)) for _ in range(rng.randrange(0, 5))],
             body=[rng.randrange(len(BODY)) for _ in range(rng.randrange(0, 4))],
@@ -358,9 +359,15 @@ def run_program(c):
     elif origin == "latin1":
         path = os.path.join(d, "latin.py")
         src = "# -*- coding: latin-1 -*-\n" + src.replace("✓", "").replace("λ", "")
+        # what latin-1 cannot say (U+2028 in a string, ...) is written as "?": such characters only occur in strings and comments
+        src = "".join(ch if ord(ch) < 256 else "?" for ch in src)
         site_line += 1
         with open(path, "wb") as f:
             f.write(src.encode("latin-1"))
+    elif origin == "changed":
+        path = os.path.join(d, "changed.py")
+        with open(path, "w", encoding="utf-8") as f:
+            f.write(src)
     elif origin == "module-exec":
         path = "<module-source>"
     else:
@@ -369,6 +376,10 @@ def run_program(c):
         code = compile(src.encode("latin-1"), path, "exec")
     else:
         code = compile(src, path, "exec")
+    if origin == "changed":
+        # the file is edited after it was loaded: what is on disk no longer tokenizes
+        with open(path, "w", encoding="utf-8") as f:
+            f.write("def broken(:\n    \'\'\'unterminated\n")
     ns = {"EXC": exc}
     if origin in ("module", "module-exec"):
         e = lns["entry_code"](code, ns)
@@ -762,7 +773,9 @@ def oracle(c, o):
         r = check_snippet(block, fl["text"], fl["tok"], last["lineno"], "failing-frame")
         if r:
             return r
-    elif fl["text"] and 1 <= last["lineno"] <= len(_src_lines(fl["text"])):
+    elif fl["text"] and isinstance(fl["tok"], list) and 1 <= last["lineno"] <= len(_src_lines(fl["text"])):
+        # a file that cannot be read (text None) or that tokenize rejects (edited since it was loaded): the report goes on
+        # without the snippet (fix caca46b) - the tie compares that with the model
         return "snippet-missing"
     # the stack trace: frames under an ignored path only at debug verbosity; the others all listed
     verbose, debug = c["verb"] >= 1, c["verb"] >= 3
